@@ -64,5 +64,5 @@ def run(out):
     if adv:
         out.fatal = "server mentions position_encoding (%s); the UTF-16 oracle may no longer apply" % adv[0]
     run_k(out, "c23", "parser", hs, jobs=14, harness_timeout=900,
-          overall_timeout=1500 if tier == "quick" else 6 * 3600, mem_gb=12)
+          overall_timeout=3600 if tier == "quick" else 6 * 3600, mem_gb=12)
     docflow.run_doc(out, ["doc_ranges"])
